@@ -79,7 +79,8 @@ fn gen_script(r: &mut Rng, i: u64, exact: bool, stats: &mut BTreeMap<String, u64
     bump(stats, &format!("reqbuf_{reqbuf}"));
     // with `Fail` the order in which an undecodable request and its neighbours arrive matters:
     // only where it is determined (one stimulus per quiescent point)
-    let policy = if exact && r.chance(1, 10) { "fail" } else { "ignore" };
+    // `send` / `sendgone`: OnReqReceiveError::Send with a live / a dropped listener (the server keeps serving, as with `ignore`)
+    let policy = if exact && r.chance(1, 10) { "fail" } else { *r.pick(&["ignore", "ignore", "ignore", "send", "sendgone"]) };
     let init = r.range(0, 50);
     let mut out = vec![format!(
         "case {}-{} trait={tr} flavour={flavour} spawn={} reqbuf={reqbuf} init={init} policy={policy} clients={} exact={}",
